@@ -1208,7 +1208,53 @@ func genLocks(r *rand.Rand, prog []instr, style, na int) []lockSpec {
 	return ls
 }
 
+// a block in which every transaction locks one hot account; some of them hold a
+// write lock on it without ever touching it (a transfer that fails early, a
+// guard that is false): their Commit has to publish the predecessor's value
+func genHotBlock(r *rand.Rand) *blockCase {
+	n := 3 + r.Intn(4)
+	bc := &blockCase{Init: make([]int64, NA+1)}
+	for a := range bc.Init {
+		bc.Init[a] = int64(r.Intn(60))
+	}
+	hot := r.Intn(2)
+	for i := 0; i < n; i++ {
+		var prog []instr
+		var locks []lockSpec
+		switch r.Intn(4) {
+		case 0: // idle writer of the hot account
+			locks = []lockSpec{{ID: hot, W: true}}
+			if r.Intn(2) == 0 {
+				other := 2 + r.Intn(2)
+				prog = []instr{{Op: "add", A: other, K: int64(1 + r.Intn(5))}}
+				locks = append(locks, lockSpec{ID: other, W: true})
+			}
+		case 1: // reader
+			prog = []instr{{Op: "read", A: hot}}
+			locks = []lockSpec{{ID: hot, W: r.Intn(3) == 0}}
+		default: // writer
+			k := 1 + r.Intn(3)
+			for j := 0; j < k; j++ {
+				switch r.Intn(3) {
+				case 0:
+					prog = append(prog, instr{Op: "add", A: hot, K: int64(1 + r.Intn(9))})
+				case 1:
+					prog = append(prog, instr{Op: "xfer", A: hot, B: 1 - hot, K: int64(1 + r.Intn(40))})
+				default:
+					prog = append(prog, instr{Op: "read", A: hot})
+				}
+			}
+			locks = genLocks(r, prog, 1, 2)
+		}
+		bc.Txs = append(bc.Txs, txSpec{Locks: locks, Prog: prog})
+	}
+	return bc
+}
+
 func genBlock(r *rand.Rand, worldRead bool) *blockCase {
+	if !worldRead && r.Intn(4) == 0 {
+		return genHotBlock(r)
+	}
 	na := 2 + r.Intn(NA-1) // 2..6 accounts in use
 	n := 2 + r.Intn(6)     // 2..7 transactions
 	bc := &blockCase{Init: make([]int64, NA+1)}
